@@ -47,6 +47,11 @@ def values(depth, tier):
             out.append(('map', [(k, v)]))
     psize = 45 if tier == 'quick' else 110
     pool = inner if len(inner) <= psize else inner[::max(1, len(inner) // psize)]
+    for must in (('arr', []), ('map', []), ('null', None), ('str', '')):
+        if must not in pool and (depth >= 2 or must[0] in ('null', 'str')):
+            pool = pool + [must]
+        if must not in inner and depth >= 2:
+            inner = inner + [must]
     for a, b in itertools.product(pool, repeat=2):
         out.append(('arr', [a, b]))
     for (k1, k2) in (('a', 'b'), ('a\n', ''), ('b', 'a')):
@@ -301,6 +306,7 @@ HAND_TEXTS = [
     '"\\u0041"', '"\\/"', '"\\ud83d\\ude00"', '"\\u00e9"', '"\\b\\f\\n\\r\\t"', '"\\\\u0041"', '1E2', '1e+2', '1.0e-2', '-0', '-0.0', '0.000001', '123456789012345678901234567890', '1.7976931348623157e308',
     ' [ 1 , 2 ] ', '\n{\n"a"\t:\r1 }', '[[[[]]]]', '{"a":{"a":{"a":{}}}}', '[null]', '{"a":null}', '[true,false,null,0,"",[],{}]', '"\\u0000"', '"\\u001f"', '"\\u007f"', '"\\u2028\\u2029"',
     '{"":""}', '{"a b":1,"a\\nb":2}', '[1.5,2.5e0,"1.5"]', '"<a>&amp;</a>"', '{"\\u0061":1}',
+    '1e20', '[100,1200,1e21,1.5e300,120e-2]', '{"a\\"b":1}', '{"a/b":"c/d"}', '{"\\/":"\\/"}', '[[]]', '[{}]', '{"a":[],"b":{}}', '[[[]],[{}]]', '{"<":"&"}',
 ]
 
 
@@ -443,6 +449,25 @@ def canon_lxml(node):
     return ('e', node.tag, tuple(sorted(node.attrib.items())), tuple(kids))
 
 
+def unicode_variant(d):
+    """the same tree with non-ASCII characters in text, attribute values, comments, processing instructions and one element name"""
+    k = d['k']
+    if k == 't':
+        return {'k': 't', 'v': d['v'] + 'é\U0001F600'} if d['v'] else d
+    if k == 'c':
+        return {'k': 'c', 'v': d['v'] + ' café \U0001F600'}
+    if k == 'p':
+        return {'k': 'p', 'n': d['n'], 'v': d['v'] + ' é'}
+    if k == 'd':
+        return {'k': 'd', 'c': [unicode_variant(c) for c in d['c']]}
+    out = dict(d)
+    if d['n'] == 'b':
+        out['n'] = 'é'
+    out['a'] = [[n, v + 'ü'] for n, v in d['a']]
+    out['c'] = [unicode_variant(c) for c in d['c']]
+    return out
+
+
 def run_xml(unit, tier, acc):
     import lxml.etree as LX
     lib = unit['lib']
@@ -451,8 +476,11 @@ def run_xml(unit, tier, acc):
         if i % unit['parts'] != unit['part']:
             continue
         prof = tid.split('/')[0]
-        for as_doc in (False, True):
-            d = TG.document(desc) if as_doc else desc
+        for as_doc, uni in ((False, False), (True, False), (False, True), (True, True)):
+            base = unicode_variant(desc) if uni else desc
+            if uni:
+                prof = tid.split('/')[0] + '+non-ascii'
+            d = TG.document(base) if as_doc else base
             try:
                 m = TG.materialize(d, lib)
             except ValueError:
